@@ -47,9 +47,15 @@ type KVTermCount struct {
 	Count  uint64
 }
 
-// NewIndex create new key value index
+// NewIndex create new key value index. The registry of indexed fields is
+// rebuilt from the field keys persisted by AddField, so that an index opened
+// over an existing store keeps indexing the fields it indexed before.
 func NewIndex(kv kvi.KVInterface) *KVIndex {
-	return &KVIndex{KV: kv, Fields: make(map[string][]string)}
+	idx := &KVIndex{KV: kv, Fields: make(map[string][]string)}
+	for _, path := range idx.ListFields() {
+		idx.Fields[path] = strings.Split(path, ".")
+	}
+	return idx
 }
 
 // AddField add new field to be indexed
